@@ -25,6 +25,7 @@ import (
 	"sort"
 	"strings"
 	"sync"
+	"sync/atomic"
 	"time"
 
 	"github.com/blevesearch/bleve/v2"
@@ -158,8 +159,8 @@ type witness struct {
 }
 
 type gstats struct {
-	images, imagesInWindow, purgeAsserts, heldReads, heldUnlinked, strict int
-	intro                                                                 string
+	images, imagesInWindow, purgeAsserts, purgeAssertsWithCopyScheduled, purgeAssertsWithIneligible, copies, heldReads, heldUnlinked, strict int
+	intro                                                                                                                                    string
 }
 
 func viewOf(rd index.IndexReader, ids, keys []string) (string, error) {
@@ -188,9 +189,9 @@ func viewOf(rd index.IndexReader, ids, keys []string) (string, error) {
 	return sb.String(), nil
 }
 
-func runGated(r *ev.Run, dir string, cfg cfgT, seed uint64) (string, *witness, *gstats, bool) {
+func runGated(r *ev.Run, dir string, cfg cfgT, seed uint64, policy string) (string, *witness, *gstats, bool) {
 	g := rng.New(seed)
-	W, B, nIDs := g.Range(2, 3), g.Range(3, 5), g.Range(3, 7)
+	W, B, nIDs := g.Range(2, 3), g.Range(4, 7), g.Range(3, 7)
 	writers, ids, keys := genWriters(g.Derive("writers"), W, B, nIDs)
 	base := filepath.Join(dir, fmt.Sprintf("g-%s-%x", cfg.Name, seed))
 	defer os.RemoveAll(base)
@@ -237,6 +238,12 @@ func runGated(r *ev.Run, dir string, cfg cfgT, seed uint64) (string, *witness, *
 		vs := s.VerifStateLocked()
 		mu.Lock()
 		st.purgeAsserts++
+		if len(vs.CopyScheduled) > 0 {
+			st.purgeAssertsWithCopyScheduled++
+		}
+		if len(vs.IneligibleForRemoval) > 0 {
+			st.purgeAssertsWithIneligible++
+		}
 		mu.Unlock()
 		for _, f := range vs.RootFiles {
 			if f == fname {
@@ -258,12 +265,76 @@ func runGated(r *ev.Run, dir string, cfg cfgT, seed uint64) (string, *witness, *
 			}
 		}
 	}
+	// online copies held at gates inside CopyTo while the purger runs: the files they
+	// are scheduled for must survive (the content of a copy is C14's subject)
+	seenScheduled := map[string]bool{}
+	jobs := make(chan string, 8)
+	var busy atomic.Int32
+	nJobs := 0
+	cg := g.Derive("copies")
+	copier := func(rn *sched.Runner) {
+		for dest := range jobs {
+			name := mon.CurrentActor("copier")
+			rn.Gate.ActorCalling(name)
+			_ = os.MkdirAll(dest, 0o755)
+			err := rn.Idx.(bleve.IndexCopyable).CopyTo(bleve.FileSystemDirectory(dest))
+			rn.Gate.ActorReturned(name)
+			if err != nil {
+				fail(rn, nil, "file-scheduled-for-copy-lost", fmt.Sprintf("CopyTo failed: %v", err))
+			}
+			mu.Lock()
+			st.copies++
+			mu.Unlock()
+			_ = os.RemoveAll(dest)
+			busy.Add(-1)
+		}
+	}
 	obs := func(rn *sched.Runner, s mon.Status, strict bool) {
 		runner = rn
 		if !strict {
 			return
 		}
 		st.strict++
+		if busy.Load() < 2 && nJobs < 6 && cg.Chance(1, 3) {
+			nJobs++
+			busy.Add(1)
+			jobs <- filepath.Join(base, fmt.Sprintf("copy%d", nJobs))
+			for i := 0; i < 200; i++ {
+				s2, strict2, ok := rn.Gate.WaitQuiescent(150*time.Microsecond, 3, 60*time.Millisecond, 10*time.Second)
+				if !ok {
+					break
+				}
+				n := 0
+				for _, w := range s2.Waiters {
+					if strings.HasPrefix(w.Point, "copy.") {
+						n++
+					}
+				}
+				if strict2 && n == int(busy.Load()) {
+					s = s2
+					break
+				}
+			}
+		}
+		// a file scheduled for an online copy that was on disk stays on disk while it is scheduled
+		vs0 := rn.S.VerifState()
+		for f, n := range vs0.CopyScheduled {
+			if n <= 0 {
+				continue
+			}
+			_, err := os.Stat(filepath.Join(store, f))
+			if err == nil {
+				seenScheduled[f] = true
+			} else if seenScheduled[f] {
+				fail(rn, &s, "file-scheduled-for-copy-removed", fmt.Sprintf("%s is scheduled for an online copy (count %d), was on disk, and is gone", f, n))
+				return
+			}
+		}
+		for f := range seenScheduled {
+			if vs0.CopyScheduled[f] <= 0 {
+				delete(seenScheduled, f)
+			}
+		}
 		// live directory: every file named by a committed snapshot or used by the root exists
 		names, err := rn.S.VerifBoltFileNames()
 		if err != nil {
@@ -389,8 +460,10 @@ func runGated(r *ev.Run, dir string, cfg cfgT, seed uint64) (string, *witness, *
 			fail(rn, &s, "image-older-than-acknowledged", fmt.Sprintf("image at step %d opens to the state after %d released batches but %d were acknowledged (release order %v)", rn.Steps, matched, minJ, released))
 		}
 	}
-	sc := &sched.Scenario{Dir: idxDir, KV: cfg.KV, Writers: writers, Gates: sched.ImageGates, G: g.Derive("sched"), MaxSteps: 600,
-		Handlers: []mon.Handler{purgeAssert}}
+	gates := append(append([]string{}, sched.ImageGates...), "copy.readerTaken", "copy.begin", "copy.beforeCommit")
+	sc := &sched.Scenario{Dir: idxDir, KV: cfg.KV, Writers: writers, Gates: gates, G: g.Derive("sched"), MaxSteps: 900, Policy: policy,
+		Handlers: []mon.Handler{purgeAssert}, Extra: []func(*sched.Runner){copier, copier},
+		AfterOpen: func(rn *sched.Runner) { close(jobs) }}
 	final := func(rn *sched.Runner) {
 		for _, h := range helds {
 			now, err := viewOf(h.rd, ids, keys)
@@ -579,12 +652,16 @@ func run(r *ev.Run) {
 			g := r.Rng(fmt.Sprintf("gated-%d", i))
 			cfg := cs[i%len(cs)]
 			seed := g.Uint64()
-			problem, wit, st, timedOut := runGated(r, dir, cfg, seed)
-			r.Case(fmt.Sprintf("gated/%s/%x", cfg.Name, seed), st.imagesInWindow > 0)
+			policy := sched.Policies[(i/len(cs))%len(sched.Policies)]
+			problem, wit, st, timedOut := runGated(r, dir, cfg, seed, policy)
+			r.Case(fmt.Sprintf("gated/%s/%s/%x", cfg.Name, policy, seed), st.imagesInWindow > 0)
 			mu.Lock()
 			tot.images += st.images
 			tot.imagesInWindow += st.imagesInWindow
 			tot.purgeAsserts += st.purgeAsserts
+			tot.purgeAssertsWithCopyScheduled += st.purgeAssertsWithCopyScheduled
+			tot.purgeAssertsWithIneligible += st.purgeAssertsWithIneligible
+			tot.copies += st.copies
 			tot.heldReads += st.heldReads
 			tot.heldUnlinked += st.heldUnlinked
 			tot.strict += st.strict
@@ -604,7 +681,8 @@ func run(r *ev.Run) {
 	}
 	wg.Wait()
 	r.Extra("gated", map[string]any{"scenarios": nG, "images_opened": tot.images, "images_taken_inside_a_window": tot.imagesInWindow,
-		"file_removals_asserted": tot.purgeAsserts, "held_reader_reads": tot.heldReads, "held_reader_paths_unlinked_while_held_not_judged": tot.heldUnlinked,
+		"file_removals_asserted": tot.purgeAsserts, "file_removals_asserted_while_a_copy_was_scheduled": tot.purgeAssertsWithCopyScheduled,
+		"file_removals_asserted_while_files_were_marked_ineligible": tot.purgeAssertsWithIneligible, "online_copies_completed": tot.copies, "policies": sched.Policies, "held_reader_reads": tot.heldReads, "held_reader_paths_unlinked_while_held_not_judged": tot.heldUnlinked,
 		"strict_quiescent_points": tot.strict, "distinct_introducer_orders": len(orders)})
 	for i := 0; i < nGrow; i++ {
 		wg.Add(1)
